@@ -135,13 +135,41 @@ func (c *c19Case) rule(id int) *c19Rule {
 	return nil
 }
 
+// denyRule returns the deny rule that is evaluated FIRST (phase order, then file order): under rule engine On it
+// is the one that interrupts, under DetectionOnly the one that would have interrupted.
 func (c *c19Case) denyRule() *c19Rule {
+	var first *c19Rule
 	for i := range c.Rules {
-		if c.Rules[i].Deny != 0 {
-			return &c.Rules[i]
+		if r := &c.Rules[i]; r.Deny != 0 && (first == nil || r.Phase < first.Phase) {
+			first = r
 		}
 	}
-	return nil
+	return first
+}
+
+func (c *c19Case) denyCount() int {
+	n := 0
+	for i := range c.Rules {
+		if c.Rules[i].Deny != 0 {
+			n++
+		}
+	}
+	return n
+}
+
+// ruleEngine is the rule engine mode in force while the rules run: SecRuleEngine, or DetectionOnly when the
+// first rule of phase 1 (a ctl carrier, so not in a follow-up transaction) executes ctl:ruleEngine=DetectionOnly.
+func (c *c19Case) ruleEngine() string {
+	if !c.Follow {
+		for i := range c.Rules {
+			for _, ctl := range c.Rules[i].Ctl {
+				if ctl == "ruleEngine=DetectionOnly" {
+					return "DetectionOnly"
+				}
+			}
+		}
+	}
+	return c.RuleEngine
 }
 
 // firesBefore reports whether rule r is evaluated given the (single) deny rule d of the case:
@@ -154,7 +182,7 @@ func (c *c19Case) modelFires(idx int) bool {
 	if len(r.Ctl) > 0 && c.Follow {
 		return false // ctl rules test the X-Ctl request header, which the follow-up transaction does not send
 	}
-	if c.RuleEngine != "On" {
+	if c.ruleEngine() != "On" {
 		return true
 	}
 	for j := range c.Rules {
@@ -177,6 +205,7 @@ type c19Expect struct {
 	EffEngine    string `json:"eff_engine"`
 	EngineByCtl  bool   `json:"engine_by_ctl"`
 	CtlPhase     int    `json:"ctl_phase,omitempty"` // phase of the rule that switched the engine
+	Denies       int    `json:"denies,omitempty"`    // disruptive rules in the case (the first evaluated one decides)
 	StatusSource string `json:"status_source"`       // response | interruption | detectiononly
 	Status       int    `json:"status"`
 	Relevant     bool   `json:"relevant"`
@@ -229,7 +258,7 @@ func (c *c19Case) expect(fired map[int]int) *c19Expect {
 	for i := range c.Rules {
 		r := &c.Rules[i]
 		fires := c.modelFires(i)
-		if fired != nil && fires && r.Phase == 5 && c.RuleEngine == "On" && c.denyRule() != nil {
+		if fired != nil && fires && r.Phase == 5 && c.ruleEngine() == "On" && c.denyRule() != nil {
 			fires = fired[r.ID] > 0
 		}
 		if !fires {
@@ -259,7 +288,8 @@ func (c *c19Case) expect(fired map[int]int) *c19Expect {
 	}
 	e.Parts = c19PartsString(parts)
 	if d := c.denyRule(); d != nil {
-		if c.RuleEngine == "On" {
+		e.Denies = c.denyCount()
+		if c.ruleEngine() == "On" {
 			e.StatusSource, e.Status = "interruption", d.Deny
 		} else {
 			e.StatusSource, e.Status = "detectiononly", d.Deny
@@ -296,6 +326,9 @@ func (e *c19Expect) countClass() string {
 	}
 	if e.EffEngine == "RelevantOnly" {
 		s += "-" + e.StatusSource
+		if e.Denies > 1 {
+			s += "-multi" // several disruptive rules: the first evaluated one gives the (real or would-be) status
+		}
 	}
 	return s
 }
